@@ -205,6 +205,10 @@ def wl_expanding(ctx, rng, case):
         f = cls(est_elements=est, false_positive_rate=rate, **extra, **bl.kw_hash(hf))
         for _ in range(rng.randint(0, 20)):
             f.add(rng.choice(keys), force=rng.random() < 0.1) if rng.random() < 0.9 else f.push()
+        if rng.random() < 0.4:
+            f = cls.frombytes(bytes(f), **extra, **bl.kw_hash(hf))
+            case.op("state-reloaded")
+            ctx.count("reloaded_states")
         before = state_expanding(f)
         done = []
         for _ in range(rng.randint(5, 14)):
@@ -269,6 +273,10 @@ def wl_sketch(ctx, rng, case):
                 case.op("add", k, n)
         if f.elements_added == 0 and any(c != 0 for c in bytes(f)[:-16]):
             ctx.count("states_with_zero_total_but_nonzero_cells")
+        if rng.random() < 0.3 and cls_name not in ("HeavyHitters", "StreamThreshold"):
+            f = cls.frombytes(bytes(f), **bl.kw_hash(hf)) if rng.random() < 0.5 else cls.frombytes(bytearray(bytes(f)), **bl.kw_hash(hf))
+            case.op("state-reloaded")
+            ctx.count("reloaded_states")
         before = state_sketch(f)
         g = P.CountMinSketch(width=w, depth=d, **bl.kw_hash(hf))
         g.add(keys[0], 2)
@@ -343,6 +351,11 @@ def wl_cuckoo(ctx, rng, case):
             pass
     sc = bl.Scratch(ctx, case)
     try:
+        if rng.random() < 0.5:
+            # a LOADED filter is a reachable state too (its buckets may be held in another container type than a built one)
+            f = cfg.reload(P, f, rng.choice(["bytes", "path"]), sc)
+            case.op("state-reloaded")
+            ctx.count("reloaded_states")
         before = state_cuckoo(f, cfg.counting)
         done = []
         for _ in range(rng.randint(5, 14)):
@@ -445,5 +458,5 @@ PROP = Prop(
         Workload("quotient", wl_quotient, quick=400, thorough=30000),
     ],
     assumptions=["observable state = what the public API exposes (exports, counters, tables, bucket table, print() dump)"],
-    required=["read_batches", "read_only_calls", "clear_comparisons", "states_with_zero_total_but_nonzero_cells"],
+    required=["read_batches", "read_only_calls", "clear_comparisons", "states_with_zero_total_but_nonzero_cells", "reloaded_states"],
 )
